@@ -62,7 +62,10 @@ def cases(draw):
         chain.append(m)
     return {"part": "rename", "bt": bt, "symmetric": symmetric, "rows": rows, "chain": chain,
             "encoding": draw(st.sampled_from(["enum", "enum", "int"])), "group": draw(st.sampled_from(["/", "/g/h"])),
-            "h5opts": draw(st.sampled_from([None, {"compression": None}]))}
+            "h5opts": draw(st.sampled_from([None, {"compression": None}])),
+            # history: ONE mapping object is applied first to another cooler that holds only some of the chromosomes
+            # (a name table looped over samples), then to the cooler under test
+            "shared_map": draw(st.integers(0, 2)) == 0}
 
 
 def check_rename(case, ctx: Ctx):
@@ -104,7 +107,18 @@ def check_rename(case, ctx: Ctx):
         for step, m in enumerate(case["chain"]):
             old = list(cur)
             cur = [m.get(x, x) for x in cur]
-            call(f"rename_chroms(step {step}: {m})", cooler.rename_chroms, clr, dict(m), case["h5opts"])
+            mobj = dict(m)
+            if case.get("shared_map"):
+                other = ctx.tmp(".cool")
+                try:
+                    sub_bt = {"names": [old[0]], "edges": [bt["edges"][0]], "kinds": [bt["kinds"][0]], "b": bt["b"]}
+                    call("create (sibling with the first chromosome only)", create_from_model, other, sub_bt, [], symmetric)
+                    oc = cooler.Cooler(other)
+                    call(f"rename_chroms(sibling, step {step}: {m})", cooler.rename_chroms, oc, mobj, case["h5opts"])
+                    check(oc.chromnames == [m.get(old[0], old[0])], lambda: f"step {step}: sibling chromnames {oc.chromnames} want {[m.get(old[0], old[0])]}")
+                finally:
+                    ctx.clean(other)
+            call(f"rename_chroms(step {step}: {m})", cooler.rename_chroms, clr, mobj, case["h5opts"])
             with h5py.File(path, "r") as f:
                 d = h5_deep_digest(f[case["group"]], skip)
                 codes = np.asarray(f[case["group"]]["bins/chrom"][:], dtype=np.int64)
@@ -159,7 +173,7 @@ def check_rename(case, ctx: Ctx):
     longest0 = max(len(x) for x in bt["names"])
     nt = len(case["chain"]) >= 2 and any(len(m) >= 2 for m in case["chain"]) and \
         any(len(v) > longest0 for m in case["chain"] for v in m.values())
-    ctx.record(case, nt, ["rename", f"chain={len(case['chain'])}", "enc=" + case["encoding"], "group=" + case["group"],
+    ctx.record(case, nt, ["rename", f"chain={len(case['chain'])}", "shared-mapping-object" if case.get("shared_map") else "own-mapping", "enc=" + case["encoding"], "group=" + case["group"],
                           "has-swap" if any(set(m.values()) & set(m.keys()) for m in case["chain"]) else "no-swap",
                           "longer" if any(len(v) > longest0 for m in case["chain"] for v in m.values()) else "not-longer"])
 
